@@ -11,6 +11,7 @@ build_coq() {
   mkdir -p "$ROOT/_build"
   # source translators T1-T5: coq/Gen/Sources.v is regenerated from /repo/src (rewritten only when it changes)
   python3 "$ROOT/tools/scan.py" > "$ROOT/_build/scan.log" 2>&1 || { cat "$ROOT/_build/scan.log"; echo "scan failed"; exit 1; }
+  "$ROOT/tools/mkcoqproject.sh"
   cd "$ROOT/coq"
   [ -f Makefile ] && [ Makefile -nt _CoqProject ] || coq_makefile -f _CoqProject -o Makefile >/dev/null
     set +e
